@@ -29,9 +29,12 @@ func c10Scenario(w *c01World, forkTip string) {
 	n.peers.Save(w.ctx)
 }
 
-func c10World(ctx context.Context, depth int) (*c01World, string, string) {
+func c10World(ctx context.Context, depth int, headersOnly bool) (*c01World, string, string) {
 	k, err := vkNewNode(ctx, nil)
 	verifrt.Assert(err == nil, "C10.kit.node-loads")
+	if headersOnly {
+		vkHeadersOnly(ctx, k)
+	}
 	k.node.state.SetVersionReceived()
 	k.node.state.MarkConnected()
 	tree := vkNewTree(*k.node.blocks.LastHash())
@@ -59,7 +62,7 @@ func c10World(ctx context.Context, depth int) (*c01World, string, string) {
 		parent = nm
 		tip = nm
 	}
-	w := &c01World{ctx: ctx, k: k, tree: tree, heard: map[string]bool{}, tolerant: true}
+	w := &c01World{ctx: ctx, k: k, tree: tree, heard: map[string]bool{}, tolerant: true, headersOnly: headersOnly}
 	w.peer = vkNewPeer(tree, "a7")
 	return w, tip, base
 }
@@ -72,6 +75,9 @@ func c10Resume(ctx context.Context, w *c01World, image *vkStore, forkTip string,
 	verifrt.Assert(err == nil, "C10.resume.new-node-loads-without-error")
 	if err != nil {
 		return
+	}
+	if w.headersOnly {
+		vkHeadersOnly(ctx, k2)
 	}
 	vkChainLinked(ctx, k2.node, when)
 	// entirely on one branch: a prefix of the old chain or of the new chain
@@ -98,7 +104,7 @@ func c10Resume(ctx context.Context, w *c01World, image *vkStore, forkTip string,
 	// and from there it converges to the peer's best chain
 	k2.node.state.SetVersionReceived()
 	k2.node.state.MarkConnected()
-	w2 := &c01World{ctx: ctx, k: k2, tree: w.tree, heard: map[string]bool{}}
+	w2 := &c01World{ctx: ctx, k: k2, tree: w.tree, heard: map[string]bool{}, headersOnly: w.headersOnly}
 	w2.peer = vkNewPeer(w.tree, forkTip)
 	w2.settle(6)
 	verifrt.Sig(when, "converge")
@@ -113,7 +119,9 @@ func VerifHarness_C10_crash() {
 		maxDepth = 5
 	}
 	depth := 1 + verifrt.Choose("reorg-depth", maxDepth)
-	w, forkTip, _ := c10World(ctx, depth)
+	// the node downloads every block, or is still before its start block (headers only)
+	headersOnly := verifrt.Choose("headers-only-phase", 2) == 1
+	w, forkTip, _ := c10World(ctx, depth, headersOnly)
 	store := w.k.store
 	store.removeMissingOK = verifrt.Choose("remove-missing-ok", 2) == 1
 	// symbolic crash point: every mutation index is a feasible value
@@ -133,7 +141,8 @@ func VerifHarness_C10_crash() {
 func VerifHarness_C10_fault() {
 	ctx := context.Background()
 	depth := 1 + verifrt.Choose("reorg-depth", 3)
-	w, forkTip, _ := c10World(ctx, depth)
+	headersOnly := verifrt.Choose("headers-only-phase", 2) == 1
+	w, forkTip, _ := c10World(ctx, depth, headersOnly)
 	store := w.k.store
 	store.failOp = verifrt.IntRange("failing-operation", 0, 400)
 	panicked, what := verifrt.Catch(func() { c10Scenario(w, forkTip) })
